@@ -46,6 +46,9 @@ def _levelNumbers():
 LOG_LEVELS_BY_NUM = _levelNumbers()
 
 def getLevelNumByDescription(description):
+    if description.startswith('_'):
+        # __module__, __doc__ etc. are attributes of the class, not levels
+        return None
     num = getattr(LevelsByDescription, description, None)
     return num
 
